@@ -105,6 +105,12 @@ def apply_edit(dst, m):
     if m.get("revert"):
         rc, out = sh(f"git -C {REPO} show {m['revert']} -- src | patch -R -p1 --no-backup-if-mismatch", cwd=dst)
         return rc == 0, out
+    if m.get("edits"):
+        for e in m["edits"]:
+            ok, why = apply_edit(dst, e)
+            if not ok:
+                return ok, why
+        return True, ""
     path = os.path.join(dst, m["file"])
     text = open(path).read()
     n = text.count(m["old"])
